@@ -64,6 +64,12 @@ class Q(P):           # plain subclass: inherits the generated methods
 
 
 @spec_class(bootstrap=True)
+class S(P):           # spec subclass that only gives inherited attributes new defaults: compare=False / repr=False stay in force
+    loose = 3
+    hidden = 2
+
+
+@spec_class(bootstrap=True)
 class R:
     a: int = 0
 
@@ -74,6 +80,7 @@ REPR_ATTRS = ["a", "b", "c", "loose", "f", "ref"]
 
 def instances():
     out = [P(), P(a=1), P(a=1, b="y"), P(a=1, c=[1]), P(a=1, hidden=5), P(a=1, loose=9), Q(a=1), Q(), R(), R(a=1)]
+    out += [S(a=1), S(a=1, loose=9), S(a=1, hidden=7)]
     for fn in ("m", "n"):
         p = P(a=1)
         p.f = getattr(p, fn)
